@@ -155,7 +155,7 @@ func cmdWorker(args []string) int {
 			}
 			wo.AbortNotes[k]++
 		}
-		if len(wo.Samples) < 1 && res.NonTriv && res.Viol == nil {
+		if len(wo.Samples) < 1 && res.NonTriv {
 			ins := res.Intents
 			if len(ins) > 40 {
 				ins = ins[:40] // the sample shows the generated part; the settle phase that follows is uniform
